@@ -190,6 +190,10 @@ def _b_body(di, k, variant, oi):
     base = dict(OTHERS[oi])
     if kw in base:
         return True               # the other option is the same keyword
+    # priming: exports that select spines by id / type come first; the defaults of later calls must not have been narrowed by them
+    kp.dumps(doc, spine_ids=[0])
+    kp.dumps(doc, spine_types=['**kern'], encoding=kp.Encoding.bEkern)
+    check(cells.parse_grid(kp.dumps(doc)) == D.expected('kern'), f'after exports with spine_ids / spine_types the default export is {cells.parse_grid(kp.dumps(doc))}, expected {D.expected("kern")}')
     ref = kp.dumps(doc, **base)
     val = _explicit_default(kw, doc, variant)
     got = kp.dumps(doc, **base, **{kw: val})
